@@ -12,12 +12,15 @@ SPEC = {
         "correspondence through subset::whole_font",
         "valid_sfnt (coq/Model/Sfnt.v) is the executable structural-validity judge applied to the implementation's "
         "output of whole_font, subset::subset and variations::instance; it is a specification written from the "
-        "OpenType text, not proved equivalent to the theorems",
+        "OpenType text; C09_written_font_is_valid proves it accepts every output of the writer model",
         "translators tr_container.py / tr_reader.py for the read-back theorem (C10's model)",
     ],
     "assumptions": [
         "table payload serialisers (T::write) are abstract: the writer model starts from the serialised buffers",
-        "fewer than 4096 tables (above that the u16 search-range arithmetic of write_offset_table overflows: noted finding, debug panic)",
+        "main theorem: the table map has exactly one head whose checkSumAdjustment placeholder is zero (what HeadTable::write produces); "
+        "tags are u32; in a release build fewer than 4096 tables (above that the u16 search-range arithmetic of write_offset_table "
+        "wraps: known finding; a debug build panics and is covered without the bound); each has a _needed witness in Props/C09.v",
+        "read-back theorem: fewer than 4096 tables, file shorter than 2^64, payload bytes in [0,256)",
     ],
     "rule": "whole_font on HashMap providers: head (54 bytes, random fields) + maxp (v0.5/v1.0) + 0-8 tables of 0-39 bytes with pool/"
             "random tags, requested tag list shuffled, with duplicates, missing tables, truncated head/maxp (must fail); "
